@@ -25,7 +25,7 @@ def build_harness(ctx, name, assertions):
     exe = os.path.join(ctx.scratch, name)
     srcs = [os.path.join(HARNESS, "relay_harness.c")] + \
            [os.path.join(REPO, "src/common", f) for f in ("xmalloc.c", "xstring.c", "fd.c")]
-    ok = ctx.cc(exe, srcs, flags=["-fno-builtin", "-Wl,--wrap=fputs"], san=True, assertions=assertions)
+    ok = ctx.cc(exe, srcs, flags=["-fno-builtin", "-Wl,--wrap=fputs", "-Wl,--wrap=read"], san=True, assertions=assertions)
     return exe if ok else None
 
 
@@ -89,8 +89,38 @@ def run_impl(exe, seqs, timeout=1800, max_crashes=4, op_timeout=10):
     return results
 
 
+_DIAG = None
+
+
+def canon_diag(ans):
+    """dsh.c's own diagnostics (err ("%p: ...")) name the program, the local host and strerror: in the answers of
+    the implementation every stderr emission that starts with `pdsh@` becomes the model's `9:-`"""
+    global _DIAG
+    import re
+    if _DIAG is None:
+        _DIAG = re.compile(r" 2:" + hexs(b"pdsh@") + r"[0-9a-f]*")
+    return [_DIAG.sub(" 9:-", a) if " 2:70647368" in a else a for a in ans]
+
+
 def harness_meta(exe):
     return int(subprocess.run([exe, "--meta"], stdout=subprocess.PIPE).stdout.decode().strip())
+
+
+def growth_info(ctx, meta):
+    """`pdshmodel relay growth <meta>`: the side condition of the losslessness theorems (Relay/Growth.lean
+    `growthOk`) evaluated on the regenerated constants, the capacities the buffer runs through, the first
+    growth step that loses data (if any), the marker's spelling"""
+    out = run_model(ctx, ["growth", str(meta)], "")
+    f = dict(w.split("=", 1) for w in (out[0] if out else "").split() if "=" in w)
+    g = {"ok": f.get("ok") == "1", "meta": meta}
+    for k in ("min", "max", "chunk", "meta_assert"):
+        if f.get(k, "").isdigit():
+            g[k] = int(f[k])
+    g["path"] = [int(x) for x in f.get("path", "").split(",") if x.isdigit()]
+    b = f.get("bad", "-")
+    g["bad"] = tuple(int(x) for x in b.split(":")) if ":" in b else None
+    g["magic"] = unhex(f.get("magic", "-")) or MAGIC
+    return g
 
 
 # ----------------------------------------------------------------------------- generators
@@ -352,6 +382,25 @@ def build_ops(rng, case, abandon=False, run_form=False):
     for i in range(len(case.targets)):
         if i not in done_hosts:
             ops.append("flush %d" % i)
+    if rng.random() < 0.3 and not run_form:
+        # read(2) faults: short reads / spurious EAGAIN / EINTR at some or all handler calls.  A cap of k bytes on a
+        # stream of n bytes costs about n/k handler calls: small caps only on small streams
+        every = rng.random() < 0.4
+        size = {k: len(case.payload(k)) for k in case.streams}
+        ops2 = []
+        for op in ops:
+            w = op.split()
+            if w[0] in ("feed", "eof", "drain") and (every or rng.random() < 0.4):
+                n = size.get((int(w[1]), w[2]), 0)
+                caps = [c for c in ("-", "-", "0", "1", "2", "7", "63", "64", "65", "500", "999", "1000", "1001", "4000")
+                        if c in ("-", "0") or int(c) * 300 >= n]
+                cap = rng.choice(caps)
+                if w[0] == "drain" and cap == "0":
+                    cap = "-"
+                op = "%s %s %s" % (op, cap, rng.choice(["0", "0", "1", "2", "4"]))
+            ops2.append(op)
+        ops = ops2
+        case.tags.add("read-faults")
     case.ops = ops
     return case
 
@@ -411,8 +460,8 @@ def parse_answer(a):
         return None
     head, _, tail = a.partition(" |")
     h = head.split()
-    if len(h) == 2 and h[0] == "run":
-        h = ["0", "0", h[1] if h[1] != "-" else "0"]
+    if len(h) == 2 and h[0] in ("run", "rcp"):
+        h = ["0", "0", h[1] if h[1] != "-" and h[0] == "run" else "0"]
     if len(h) != 3:
         return None
     ems = []
@@ -438,6 +487,8 @@ def collect(case, answers):
             continue
         i = int(w[1])
         for s, b in pa[3]:
+            if s == "2" and b.startswith(b"pdsh@") and "read-error" in case.tags:
+                continue          # dsh.c's own diagnostic about a read(2) that failed (scripted EIO)
             if w[0] == "flush":
                 key = (i, "o") if s == "1" else (i, "e") if s == "2" else None
             else:
@@ -534,6 +585,7 @@ def evaluate(ctx, prop, cases, impl, cov, dist, flavour, engines=("index", "fifo
             pos += n
             continue
         # ---- correspondence: implementation vs both models, call by call
+        ans = canon_diag(ans)
         for e in engines:
             m = models[e][pos:pos + n]
             if ans != m:
@@ -644,7 +696,7 @@ def exhaustive_small(tier):
                         prev = j
                 chunks.append(s[prev:])
                 k += 1
-                out.append(case_from([b"h1", b"h10"], True, False, {(1, "oe"[k % 2]): chunks}, tags=["exhaustive"]))
+                out.append(case_from([b"h1", b"h10"], k % 4 != 3, False, {(1, "oe"[k % 2]): chunks}, tags=["exhaustive"]))
     return out
 
 
@@ -672,7 +724,7 @@ def case_from_json(j, tag):
     closed = set()
     for op in c.ops:
         w = op.split()
-        if w[0] in ("drain", "run"):
+        if w[0] in ("drain", "run", "rcperr"):
             closed.add((int(w[1]), w[2][0]))
     c.complete = j.get("complete", all(k in closed for k in c.streams))
     return c
@@ -743,7 +795,7 @@ def d9_probe(ctx, exe, dist):
 def run_check(ctx, prop, props_module, level):
     """the whole procedure shared by checks/c05.py and checks/c06.py"""
     import threading
-    from vlib import relay_real, relay_sched
+    from vlib import relay_real, relay_sched, relay_pinned
     rng = ctx.rng
     # the scratch build for the real-process part takes ~25 s: start it now, in the background
     builder = threading.Thread(target=ctx.repo_build)
@@ -752,7 +804,17 @@ def run_check(ctx, prop, props_module, level):
     ctx.lean_build([props_module, "pdshmodel"])
     ctx.audit(props_module)
     cov = {"evaluations": 0, "distinct_nontrivial": 0, "samples": [], "_distinct": set(),
-           "rule": "case = target set x options (-N, -K) x per (host, stream) payload x chunking x interleaved "
+           "rule": "PINNED FIRST, every run, both build flavours (vlib/relay_pinned.py): lines of exactly 64/65/2047-2049/"
+                   "8191-8193/131071/131072/131073 bytes, streams around every sampled capacity of cbuf.c's growth sequence "
+                   "for the regenerated constants (and the lossy step when growthOk is false), unterminated tails 1/8190-"
+                   "8193/16382-16384, empty lines, bursts of hundreds of tiny lines in one read, the marker cut at every "
+                   "position / at the end without newline / on stderr / look-alikes, '%' in tails and lines, arrivals ending "
+                   "exactly at the ring's physical end, growth of a wrapped buffer, every name pool x -K x -N, EOF on one "
+                   "stream long before the other, every fragmentation of two small streams on two hosts x every "
+                   "interleaving, read(2) faults at every handler call (short reads, spurious EAGAIN, EINTR), pdcp/rpdcp "
+                   "remote stderr through the real _parallel_copy; pinned real runs (domain loop of dsh(), one stream ends "
+                   "first, exec fails after an unterminated fragment) and pinned scheduler cases; THEN RANDOM: "
+                   "case = target set x options (-N, -K) x per (host, stream) payload x chunking x interleaved "
                    "schedule of handler calls; payload lines of length 0/1/../62-66/934-1002/1998-2001/3999/4000/"
                    "8190-8193 (thorough: 131071/131072, beyond: 131073+), final fragment absent / 1..200 / 8190-8194 / "
                    "16381-16384 / 20000 (thorough: 131071/131072) bytes; chunkings whole / 1-byte / cut on, before, "
@@ -761,10 +823,13 @@ def run_check(ctx, prop, props_module, level):
                    "non-trivial = stream with >= 2 lines and a chunk boundary strictly inside a line; distinct = "
                    "distinct (payload, chunk sizes, options, targets, stream); controlled-scheduler part: 2-6 targets "
                    "with scripted stdout+stderr each under uniform/PCT/starve/eager/preempt-at-each-fputs schedules "
-                   "(thorough: all io interleavings of 4 tiny configurations), distinct = distinct (stream, schedule)"}
+                   "(thorough: all io interleavings of 4 tiny configurations), distinct = distinct (stream, schedule); every read of "
+                   "every worker under the scheduler is replayed through the model's handler (loop replay)"}
     dist = {"tags": {}, "flavours": {}}
+    ctx.log("constants regenerated, proofs built and audited")
     exe_dbg = build_harness(ctx, "relay_dbg", assertions=True)
     exe_rel = build_harness(ctx, "relay_rel", assertions=False)
+    ctx.log("harness built (two flavours)")
     replay = None
     if getattr(ctx, "replay", None):
         import json
@@ -799,27 +864,85 @@ def run_check(ctx, prop, props_module, level):
         plan = []
         for exe, name, share in ((exe_dbg, "assert+asan", 0.6), (exe_rel, "shipped(NDEBUG)+asan", 0.4)):
             cases = []
-            counts = [("tiny", 1200 if quick else 12000), ("small", 900 if quick else 8000),
-                      ("mid", 400 if quick else 2500), ("tailbuf", 160 if quick else 900),
-                      ("burst", 140 if quick else 1500)]
+            counts = [("tiny", 800 if quick else 12000), ("small", 600 if quick else 8000),
+                      ("mid", 300 if quick else 2500), ("tailbuf", 120 if quick else 900),
+                      ("burst", 100 if quick else 1500)]
             for cls, n in counts:
                 for _ in range(int(n * share)):
                     cases.append(gen_case(rng, cls))
             for _ in range(0 if quick else int(40 * share)):
                 cases.append(gen_case(rng, "huge", chunk_style=rng.choice(["whole", "around", "random"]),
                                       allow_beyond=True, nstreams=1))
-            for _ in range(int((400 if quick else 2500) * share)):
+            for _ in range(int((300 if quick else 2500) * share)):
                 cases.append(gen_case(rng, rng.choice(["tiny", "small", "small", "mid"]),
                                       spoil_kind=rng.choice(["nul", "magic", "magic", "abandon"]), allow_beyond=True))
             if name.startswith("assert"):
                 cases = load_corpus(prop) + cases + exhaustive_small(ctx.tier)
-            plan.append((exe, name, cases))
+            # the pinned boundary classes run FIRST in both flavours, whatever the seed (vlib/relay_pinned.py);
+            # the growth boundaries depend on the flavour's bookkeeping cells
+            g = growth_info(ctx, harness_meta(exe))
+            pinned = relay_pinned.pinned_cases(g, g["magic"], quick)
+            dist["pinned"] = dist.get("pinned", 0) + len(pinned)
+            dist.setdefault("growth", {})[name] = {"growthOk": g["ok"], "min": g.get("min"), "max": g.get("max"),
+                                                   "chunk": g.get("chunk"), "meta": g["meta"], "steps": len(g["path"]),
+                                                   "first_lossy_step": g["bad"]}
+            if not g["ok"]:
+                ctx.log("NOTE [%s]: the regenerated cbuf constants (min %s, max %s, chunk %s, meta %s) do NOT satisfy the "
+                        "side condition growthOk of the losslessness theorems: growth step %s makes no room for the read "
+                        "that triggers it; the pinned streams around that capacity show the loss on the real code"
+                        % (name, g.get("min"), g.get("max"), g.get("chunk"), g["meta"], g["bad"]))
+            if name.startswith("assert") and g.get("meta_assert") != g["meta"]:
+                ctx.disagreement("Gen.RELAY_SIZE_META_ASSERT vs the assertion-enabled harness",
+                                 "constants probe says %s, cbuf.c built with assertions has %s bookkeeping cells"
+                                 % (g.get("meta_assert"), g["meta"]), None)
+            plan.append((exe, name, pinned + cases))
+        # the two build flavours are judged side by side (the time goes into the harness and the model drivers, all
+        # subprocesses); each flavour counts into its own coverage record, merged afterwards
+        def one_flavour(exe, name, cases, cov_f, dist_f, errs):
+            try:
+                meta = harness_meta(exe)
+                dist_f["flavours"][name] = len(cases)
+                # of the pinned streams of 128 KiB only those tagged `fifo-too` go through the (slower) FIFO engine as
+                # well (the index engine provably simulates it: Relay/IndexSim.lean); all of them through the index engine
+                def slow(c):
+                    return "huge" in c.tags and "pinned" in c.tags and "fifo-too" not in c.tags
+                for part, engines in (([c for c in cases if slow(c)], ("index",)),
+                                      ([c for c in cases if not slow(c)], ("index", "fifo"))):
+                    if part:
+                        impl = run_impl(exe, [c.ops for c in part], op_timeout=20 if quick else 60)
+                        # a timeout alone is re-tried once (alone, with four times the allowance) before it is reported
+                        for k, (ans, crash) in enumerate(impl):
+                            if crash is not None and "TIMEOUT" in crash:
+                                dist_f["timeouts_retried"] = dist_f.get("timeouts_retried", 0) + 1
+                                impl[k] = run_impl(exe, [part[k].ops], op_timeout=80 if quick else 240, max_crashes=1)[0]
+                        evaluate(ctx, prop, part, impl, cov_f, dist_f, name, engines=engines, meta=meta)
+                ctx.log("in-process [%s]: %d cases (%d pinned)" % (name, len(cases), sum("pinned" in c.tags for c in cases)))
+            except BaseException as e:          # re-raised in the main thread
+                errs.append(e)
+
+        def merge(a, b):
+            for k, v in b.items():
+                if isinstance(v, dict):
+                    merge(a.setdefault(k, {}), v)
+                elif isinstance(v, (int, float)) and not isinstance(v, bool):
+                    a[k] = a.get(k, 0) + v
+                else:
+                    a.setdefault(k, v)
+        jobs, errs = [], []
         for exe, name, cases in plan:
-            meta = harness_meta(exe)
-            impl = run_impl(exe, [c.ops for c in cases], op_timeout=10 if quick else 60)
-            dist["flavours"][name] = len(cases)
-            evaluate(ctx, prop, cases, impl, cov, dist, name, meta=meta)
-            ctx.log("in-process [%s]: %d cases" % (name, len(cases)))
+            cov_f = {"evaluations": 0, "samples": [], "_distinct": set()}
+            dist_f = {"tags": {}, "flavours": {}}
+            th = threading.Thread(target=one_flavour, args=(exe, name, cases, cov_f, dist_f, errs))
+            th.start()
+            jobs.append((th, cov_f, dist_f))
+        for th, cov_f, dist_f in jobs:
+            th.join()
+            cov["evaluations"] += cov_f["evaluations"]
+            cov["_distinct"] |= cov_f["_distinct"]
+            cov["samples"] = (cov["samples"] + cov_f["samples"])[:4]
+            merge(dist, dist_f)
+        if errs:
+            raise errs[0]
         d9_probe(ctx, exe_dbg, dist)
     if not replay:
         # ---- third part: the unmodified dsh.c under the controlled scheduler, adversarial schedules
